@@ -227,6 +227,9 @@ pub fn eval_join(kind: JoinKind, l: &[E], r: &[E]) -> Vec<E> {
 pub struct Interp<'a> {
     pub sc: &'a Scenario,
     pub res: RefResult,
+    /// set by a step whose output, seen as stream elements, differs from the payload values in
+    /// the timestamp only (count windows): used for the next step-output expectation
+    stream_view: Option<Vec<E>>,
 }
 
 impl<'a> Interp<'a> {
@@ -244,6 +247,7 @@ impl<'a> Interp<'a> {
                 inner_rounds: BTreeMap::new(),
                 notes: vec![],
             },
+            stream_view: None,
         };
         let mut streams: Vec<Option<RS>> = Vec::new();
         it.steps(&sc.steps, &mut streams, &mut Vec::new(), true, &[]);
@@ -271,7 +275,7 @@ impl<'a> Interp<'a> {
             .expect
             .entry((path, out))
             .or_default()
-            .push(if s.weak { None } else { Some(s.v.clone()) });
+            .push(if s.weak { None } else { Some(self.stream_view.take().filter(|v| v.len() == s.v.len()).unwrap_or_else(|| s.v.clone())) });
     }
 
     fn steps(&mut self, steps: &[Step], streams: &mut Vec<Option<RS>>, outer: &mut Vec<Option<RS>>, top: bool, prefix: &[usize]) {
@@ -287,6 +291,7 @@ impl<'a> Interp<'a> {
     }
 
     fn step(&mut self, st: &Step, streams: &mut Vec<Option<RS>>, outer: &mut Vec<Option<RS>>, top: bool, prefix: &[usize], si: usize) {
+        self.stream_view = None;
         {
             match st {
                 Step::Source(i) => {
@@ -452,22 +457,35 @@ impl<'a> Interp<'a> {
                 // on a path where every key's arrival order is determined the groups are too
                 let all = matches!(op, UnOp::WinAll(..));
                 let mut per_key: BTreeMap<u16, Vec<(u64, i64)>> = BTreeMap::new();
+                let mut per_key_ts: BTreeMap<u16, Vec<i64>> = BTreeMap::new();
                 for e in &v {
                     per_key.entry(if all { 0 } else { e.key }).or_default().push((e.id, e.v));
+                    per_key_ts.entry(if all { 0 } else { e.key }).or_default().push(e.ts);
                 }
                 let mut outv = vec![];
+                // the same results as stream elements: the job's closure resets the payload field
+                // `ts`, the engine stamps the result with the largest timestamp of its group
+                let mut out_ts = vec![];
                 for (k, seq) in per_key {
+                    // on a timestamped stream a result carries the largest timestamp of its group
+                    let tss = &per_key_ts[&k];
                     let mut j = 0usize;
                     while j * s + n <= seq.len() {
                         let (id, val) = crate::win::win_value(*agg, k, &seq[j * s..j * s + n]);
+                        let ts = tss[j * s..j * s + n].iter().copied().max().unwrap_or(0);
                         outv.push(E { id, key: k, v: val, ts: 0, pad: vec![] });
+                        out_ts.push(E { id, key: k, v: val, ts, pad: vec![] });
                         j += 1;
                     }
                     if !exact && j * s < seq.len() {
-                        let (id, val) = crate::win::win_value(*agg, k, &seq[j * s..seq.len().min(j * s + n)]);
+                        let hi = seq.len().min(j * s + n);
+                        let (id, val) = crate::win::win_value(*agg, k, &seq[j * s..hi]);
+                        let ts = tss[j * s..hi].iter().copied().max().unwrap_or(0);
                         outv.push(E { id, key: k, v: val, ts: 0, pad: vec![] });
+                        out_ts.push(E { id, key: k, v: val, ts, pad: vec![] });
                     }
                 }
+                self.stream_view = Some(out_ts);
                 RS {
                     v: outv,
                     weak: false,
